@@ -204,7 +204,7 @@ def greaterThan (a b : GoVal) : Res GoVal :=
     | .v x =>
       match x.v with
       | .n y => .ok (boolVal (gt m y))
-      | .null => .panic "interface conversion: interface {} is nil, not *big.Float"
+      | .null => .panic "nil *big.Float"
       | .unk r0 => .ok (if gt m (origUpper r0) then boolVal true else if lt m (origLower r0) then boolVal false else unknownBool)
       | _ => .unmodelled
 
@@ -220,7 +220,7 @@ def lessThan (a b : GoVal) : Res GoVal :=
     | .v x =>
       match x.v with
       | .n y => .ok (boolVal (lt m y))
-      | .null => .panic "interface conversion: interface {} is nil, not *big.Float"
+      | .null => .panic "nil *big.Float"
       | .unk r0 => .ok (if lt m (origLower r0) then boolVal true else if gt m (origUpper r0) then boolVal false else unknownBool)
       | _ => .unmodelled
 
@@ -237,7 +237,7 @@ def greaterThanOrEqualTo (a b : GoVal) : Res GoVal :=
     | .v x =>
       match x.v with
       | .n y => optRes ((ge? m y).map boolVal)
-      | .null => .panic "interface conversion: interface {} is nil, not *big.Float"
+      | .null => .panic "nil *big.Float"
       | .unk r0 => .ok (if gt m (origUpper r0) then boolVal true else unknownBool)
       | _ => .unmodelled
 
@@ -253,7 +253,7 @@ def lessThanOrEqualTo (a b : GoVal) : Res GoVal :=
     | .v x =>
       match x.v with
       | .n y => optRes ((le? m y).map boolVal)
-      | .null => .panic "interface conversion: interface {} is nil, not *big.Float"
+      | .null => .panic "nil *big.Float"
       | .unk r0 => .ok (if lt m (origLower r0) then boolVal true else unknownBool)
       | _ => .unmodelled
 
